@@ -963,7 +963,12 @@ func (g *Gen) VerifyFunction(fn *ssa.Function, fc *FuncContract) error {
 	}
 	// frame
 	if fc.ModSet && !fc.ModAll {
-		if err := fr.frameObligations(exit, exitReach, entryEnv); err != nil {
+		if err := fr.frameObligations(exit, exitReach, entryEnv, false); err != nil {
+			return err
+		}
+	} else {
+		// `modifies all` (or no clause): callers keep ghost variables across the call, so those not listed must be unchanged
+		if err := fr.frameObligations(exit, exitReach, entryEnv, true); err != nil {
 			return err
 		}
 	}
@@ -993,23 +998,38 @@ func (fr *Frame) addModelValues(o *Oblig, env *Env) {
 }
 
 // frameObligations: every heap that differs between entry and exit differs only at declared locations or fresh objects.
-func (fr *Frame) frameObligations(exit *State, reach string, entryEnv *Env) error {
+func (fr *Frame) frameObligations(exit *State, reach string, entryEnv *Env, ghostsOnly bool) error {
 	g := fr.g
 	fc := fr.fc
 	mods := map[string][][]string{} // heap -> list of index tuples (prefixes) that may change
 	whole := map[string]bool{}
 	for _, m := range fc.Modifies {
-		l, all, err := entryEnv.evalModLoc(m)
+		locs, err := entryEnv.evalModLocs(m)
 		if err != nil {
 			return fmt.Errorf("%s: modifies: %v", fc.File, err)
 		}
-		if all {
-			whole[l.Heap] = true
-			continue
+		for _, ml := range locs {
+			if ml.whole || g.ghost[ml.l.Heap] {
+				whole[ml.l.Heap] = true
+				continue
+			}
+			mods[ml.l.Heap] = append(mods[ml.l.Heap], ml.l.Idx)
 		}
-		mods[l.Heap] = append(mods[l.Heap], l.Idx)
 	}
 	alloc0 := g.heapGet(g.entry, "Alloc")
+	if ghostsOnly {
+		for _, k := range sortedKeys(exit.h) {
+			if !g.ghost[k] || whole[k] || len(mods[k]) > 0 {
+				continue
+			}
+			now, was := exit.h[k], g.heapGet(g.entry, k)
+			if now == was {
+				continue
+			}
+			g.oblige("frame", fr.oname("frame", k), "frame", fr.props, reach, sEq(now, was), "ghost variable "+k+" is not in the modifies clause", fr.fn.Pos())
+		}
+		return nil
+	}
 	if exit.epoch != g.entry.epoch {
 		g.oblige("frame", fr.oname("frame", "*"), "frame", fr.props, reach, "false", "an unmodelled callee may have written any heap location", fr.fn.Pos())
 		return nil
@@ -1025,8 +1045,8 @@ func (fr *Frame) frameObligations(exit *State, reach string, entryEnv *Env) erro
 		}
 		srt := g.heapSort(k)
 		var cond string
-		if !strings.HasPrefix(srt, "(Array ") {
-			// scalar heap (global or ghost variable)
+		if !strings.HasPrefix(srt, "(Array ") || g.ghost[k] || strings.HasPrefix(k, "G:") || strings.HasPrefix(k, "Local:") {
+			// scalar heap (global, ghost or local variable): compared as a whole
 			if len(mods[k]) > 0 {
 				continue
 			}
@@ -1056,15 +1076,21 @@ func (fr *Frame) frameObligations(exit *State, reach string, entryEnv *Env) erro
 						excl1 = append(excl1, app("=", "r!", idx[0]))
 					}
 				}
-				cond = fmt.Sprintf("(forall ((r! Int) (i! Int)) (=> (and (< r! %s) (not %s) (not %s)) (= (select (select %s r!) i!) (select (select %s r!) i!))))",
-					alloc0, sOr(excl1...), sOr(twoLevel...), now, was)
+				cond = fmt.Sprintf("(forall ((r! Int) (i! Int)) (=> (and %s (not %s) (not %s)) (= (select (select %s r!) i!) (select (select %s r!) i!))))",
+					oldObj("r!", alloc0), sOr(excl1...), sOr(twoLevel...), now, was)
 			} else {
-				cond = fmt.Sprintf("(forall ((r! Int)) (=> (and (< r! %s) (not %s)) %s))", alloc0, sOr(excl...), body)
+				cond = fmt.Sprintf("(forall ((r! Int)) (=> (and %s (not %s)) %s))", oldObj("r!", alloc0), sOr(excl...), body)
 			}
 		}
 		g.oblige("frame", fr.oname("frame", k), "frame", fr.props, reach, cond, "modifies clause: only declared locations of "+k+" change", fr.fn.Pos())
 	}
 	return nil
+}
+
+// oldObj: r denotes an object that existed at function entry — an allocated reference below the entry allocation
+// counter, or the (negative) derived reference of an array embedded in such an object.
+func oldObj(r, alloc0 string) string {
+	return fmt.Sprintf("(or (and (>= %s 0) (< %s %s)) (and (< %s 0) (< (fa.obj %s) %s)))", r, r, alloc0, r, r, alloc0)
 }
 
 // evalModLoc evaluates a modifies-clause expression to a location.
@@ -1093,9 +1119,34 @@ func (e *Env) evalModLoc(x Expr) (l *Loc, whole bool, err error) {
 				}
 			}
 		}
-		base := e.eval(x.X)
+		var base Val
+		if inner, isSel := x.X.(*ESel); isSel {
+			// p.s.f with s an in-line struct: the base is itself a location
+			if il, _, ierr := e.evalModLoc(inner); ierr == nil && il != nil && il.T != nil {
+				if _, isStruct := il.T.Underlying().(*types.Struct); isStruct {
+					base = Val{Loc: il, Go: types.NewPointer(il.T), Sort: SInt}
+				}
+			}
+		}
+		if base.Go == nil {
+			base = e.eval(x.X)
+		}
 		if base.Go == nil {
 			efail("modifies: field of non-Go value")
+		}
+		if base.Loc != nil {
+			// fields of an in-line struct location
+			su, ok := base.Loc.T.Underlying().(*types.Struct)
+			if !ok {
+				efail("modifies: %s is not a struct", exprString(x.X))
+			}
+			for i := 0; i < su.NumFields(); i++ {
+				if su.Field(i).Name() == x.Name {
+					fl := g.fieldLoc(base, i)
+					return fl.Loc, false, nil
+				}
+			}
+			efail("modifies: no field %s", x.Name)
 		}
 		t := base.Go
 		obj, path, _ := types.LookupFieldOrMethod(t, true, pkgOfType(t), x.Name)
